@@ -110,6 +110,10 @@ class C03(Property):
             return dict(static_links=[dict(static_in=rnd.random() < 0.6, chain=rnd.randint(0, 2)) for _ in range(rnd.randint(1, 3))],
                         gen_step=rnd.choice([1, 2, 3]), cons_step=rnd.choice([1, 2, 5]), end=rnd.choice([0, 4, 7.5, 12]),
                         order=rnd.sample(range(3), 3), shared_output=rnd.random() < 0.5)
+        if i % 40 == 29:
+            # a shipped component that learns its start time only while connecting (TimeTrigger without start); run() does the connecting
+            return dict(deferred=dict(gen_step=rnd.choice([1, 2, 3]), trig_step=rnd.choice([1, 2, 5]), linked_out=rnd.random() < 0.5, extra=rnd.random() < 0.5,
+                                      explicit_connect=rnd.random() < 0.3), end=rnd.choice([4, 7.5, 12]), order=rnd.sample(range(4), 4))
         if i % 40 == 39:
             # composition without time components: pull-based component only
             return dict(comps=[dict(name="p0", type="pull", nin=0, nout=1, eager=True, info="target")], links=[], order=[0], link_order=[],
@@ -148,6 +152,8 @@ class C03(Property):
             return self._run_finisher(out, spec)
         if spec.get("static_links") is not None:
             return self._run_static(out, spec)
+        if spec.get("deferred") is not None:
+            return self._run_deferred(out, spec)
         if spec["end"] is None:
             return self._run_no_time(out, spec)
         rep = sched_run.run_spec(spec, check_model=False)
@@ -361,6 +367,55 @@ class C03(Property):
             out.key = "static:" + repr((links, spec["gen_step"], spec["cons_step"], spec["end"], spec["order"], spec["shared_output"]))
         return out
 
+    def _run_deferred(self, out, spec):
+        import logging
+
+        from ..record import REC, install
+
+        T0, H = harness.T0, harness.H
+        d = spec["deferred"]
+        gen = fm.components.CallbackGenerator({"Out": (lambda t: harness.hrs(t), fm.Info(time=None, grid=fm.NoGrid(), units="m"))}, T0, H(d["gen_step"]))
+        trig = fm.components.TimeTrigger(start=None, step=H(d["trig_step"]), in_info=fm.Info(time=None, grid=fm.NoGrid(), units=None))
+        comps = [gen, trig]
+        if d["linked_out"]:
+            sink = fm.components.DebugPushConsumer({"In": fm.Info(time=None, grid=fm.NoGrid(), units=None)})
+            comps.append(sink)
+        if d["extra"]:
+            other = fm.components.CallbackGenerator({"Out": (lambda t: 1.0, fm.Info(time=None, grid=fm.NoGrid(), units="m"))}, T0, H(3))
+            comps.append(other)
+        order = [k for k in spec["order"] if k < len(comps)]
+        composition = fm.Composition([comps[k] for k in order], print_log=False, log_level=logging.CRITICAL + 10)
+        gen.outputs["Out"] >> trig.inputs["In"]
+        if d["linked_out"]:
+            trig.outputs["Out"] >> sink.inputs["In"]
+        install()
+        REC.reset()
+        life = {c: [] for c in comps}
+        for ev, ch in (("connect_entry", "C"), ("validate_entry", "V"), ("update_entry", "U"), ("finalize_entry", "F")):
+            REC.on(ev, lambda comp, *a, ch=ch: life[comp].append(ch) if comp in life else None)
+        end = T0 + H(spec["end"])
+        try:
+            if d["explicit_connect"]:
+                composition.connect(T0)
+                composition.run(end_time=end)
+            else:
+                composition.run(end_time=end)  # no connect() before, no start time: run() finds it and connects
+        except Exception as e:  # pylint: disable=broad-except
+            out.viol("run_did_not_return", f"composition with a deferred-start TimeTrigger raised {type(e).__name__}: {str(e)[:200]}", spec=spec)
+            return out
+        finally:
+            REC.reset()
+        out.count("compositions_with_deferred_start_component")
+        for c in comps:
+            seq = "I" + "".join(life[c])
+            out.count("lifecycles_checked")
+            if not LIFECYCLE.match(seq) or c.status != fm.ComponentStatus.FINALIZED:
+                out.viol("lifecycle_order", f"{c.name}: callback sequence {seq[:60]!r} / final state {c.status}", spec=spec)
+            if isinstance(c, fm.interfaces.ITimeComponent) and (c.time is None or c.time < end):
+                out.viol("end_not_reached", f"{c.name} ended at {c.time}, end time {end}", spec=spec)
+        out.key = "deferred:" + repr(sorted((k, repr(v)) for k, v in spec.items()))
+        return out
+
     def _run_finisher(self, out, spec):
         import logging
 
@@ -377,7 +432,7 @@ class C03(Property):
 
     def coverage_gaps(self, counters, tier):
         need = ["updates_observed", "lifecycles_checked", "adapter_finalize_checked", "end_equals_start_runs", "runs_with_never_updated_component",
-                "compositions_without_time_components", "runs_after_a_refused_first_attempt", "compositions_with_static_links", "static_link_adapters_checked"] + ["end_mode_" + m for m in ("on", "before", "after", "start", "late_start", "far")]
+                "compositions_without_time_components", "runs_after_a_refused_first_attempt", "compositions_with_static_links", "static_link_adapters_checked", "compositions_with_deferred_start_component"] + ["end_mode_" + m for m in ("on", "before", "after", "start", "late_start", "far")]
         gaps = [f"{k} never observed" for k in need if not counters.get(k)]
         if counters.get("aborted_runs", 0) > 0.05 * max(1, counters.get("compositions", 0)):
             gaps.append(f"{counters.get('aborted_runs')} of {counters.get('compositions')} runs aborted for reasons outside this property")
